@@ -1298,10 +1298,6 @@ impl Database {
         let modified_col_indices: HashSet<usize> =
             assignment_indices.iter().map(|(idx, _)| *idx).collect();
 
-        let needs_old_row_for_secondary_index = secondary_indexes
-            .iter()
-            .any(|(_, col_indices)| col_indices.iter().any(|idx| modified_col_indices.contains(idx)));
-
         let unique_col_indices: Vec<usize> = columns
             .iter()
             .enumerate()
@@ -1312,6 +1308,13 @@ impl Database {
             })
             .map(|(idx, _)| idx)
             .collect();
+
+        // The old row is needed to remove its entries from every index whose key
+        // column changes: secondary indexes and the unique/primary-key indexes.
+        let needs_old_row_for_secondary_index = !unique_col_indices.is_empty()
+            || secondary_indexes.iter().any(|(_, col_indices)| {
+                col_indices.iter().any(|idx| modified_col_indices.contains(idx))
+            });
 
         let can_onepass = pk_lookup_info.is_some()
             && unique_col_indices.is_empty()
@@ -1591,6 +1594,7 @@ impl Database {
         drop(storage);
 
         if !unique_col_indices.is_empty() {
+            let mut new_keys_seen: HashSet<(usize, Vec<u8>)> = HashSet::new();
             for (update_key, _old_value, updated_values, _old_row_values, _old_toast) in
                 &rows_to_update
             {
@@ -1598,6 +1602,17 @@ impl Database {
                     let new_val = &updated_values[col_idx];
                     if new_val.is_null() {
                         continue;
+                    }
+
+                    // two rows of this statement must not end up with the same value either
+                    let mut seen_key = Vec::new();
+                    Self::encode_value_as_key(new_val, &mut seen_key);
+                    if !new_keys_seen.insert((col_idx, seen_key)) {
+                        bail!(
+                            "UNIQUE constraint violated on column '{}' in table '{}': value already exists",
+                            columns[col_idx].name(),
+                            table_name
+                        );
                     }
 
                     let col_name = columns[col_idx].name();
@@ -1769,7 +1784,7 @@ impl Database {
 
                 let mut index_btree = BTree::new(&mut *index_storage, index_root_page)?;
 
-                for (_row_key, _old_value, new_row_values, old_row_values, _old_toast) in
+                for (row_key, _old_value, new_row_values, old_row_values, _old_toast) in
                     &rows_to_update
                 {
                     if let Some(old_value) = old_row_values.get(*col_idx) {
@@ -1784,15 +1799,8 @@ impl Database {
                         if !new_value.is_null() {
                             key_buf.clear();
                             Self::encode_value_as_key(new_value, &mut key_buf);
-                            if let Some(pk_idx) = columns
-                                .iter()
-                                .position(|c| c.has_constraint(&Constraint::PrimaryKey))
-                            {
-                                if let Some(OwnedValue::Int(pk_val)) = new_row_values.get(pk_idx) {
-                                    let row_id_bytes = (*pk_val as u64).to_be_bytes();
-                                    let _ = index_btree.insert(&key_buf, &row_id_bytes);
-                                }
-                            }
+                            // like INSERT, the index maps the value to the row key
+                            let _ = index_btree.insert(&key_buf, row_key);
                         }
                     }
                 }
@@ -1822,19 +1830,30 @@ impl Database {
 
                 let mut index_btree = BTree::new(&mut *index_storage, index_root_page)?;
 
-                for (_row_key, _old_value, new_row_values, old_row_values, _old_toast) in
+                // Same entry layout as INSERT writes: a unique index maps the column
+                // values to the row key; a non-unique index appends the row key to the
+                // index key (and skips no NULLs) so that equal values can coexist.
+                let is_unique_index = table_def
+                    .indexes()
+                    .iter()
+                    .any(|idx| idx.name() == index_name.as_str() && idx.is_unique());
+
+                for (row_key, _old_value, new_row_values, old_row_values, _old_toast) in
                     &rows_to_update
                 {
                     let old_all_non_null = col_indices
                         .iter()
                         .all(|&idx| old_row_values.get(idx).is_some_and(|v| !v.is_null()));
 
-                    if old_all_non_null {
+                    if old_all_non_null || !is_unique_index {
                         key_buf.clear();
                         for &col_idx in col_indices {
                             if let Some(value) = old_row_values.get(col_idx) {
                                 Self::encode_value_as_key(value, &mut key_buf);
                             }
+                        }
+                        if !is_unique_index {
+                            key_buf.extend_from_slice(row_key);
                         }
                         let _ = index_btree.delete(&key_buf);
                     }
@@ -1843,22 +1862,17 @@ impl Database {
                         .iter()
                         .all(|&idx| new_row_values.get(idx).is_some_and(|v| !v.is_null()));
 
-                    if new_all_non_null {
+                    if new_all_non_null || !is_unique_index {
                         key_buf.clear();
                         for &col_idx in col_indices {
                             if let Some(value) = new_row_values.get(col_idx) {
                                 Self::encode_value_as_key(value, &mut key_buf);
                             }
                         }
-                        if let Some(pk_idx) = columns
-                            .iter()
-                            .position(|c| c.has_constraint(&Constraint::PrimaryKey))
-                        {
-                            if let Some(OwnedValue::Int(pk_val)) = new_row_values.get(pk_idx) {
-                                let row_id_bytes = (*pk_val as u64).to_be_bytes();
-                                let _ = index_btree.insert(&key_buf, &row_id_bytes);
-                            }
+                        if !is_unique_index {
+                            key_buf.extend_from_slice(row_key);
                         }
+                        let _ = index_btree.insert(&key_buf, row_key);
                     }
                 }
             }
